@@ -177,4 +177,68 @@ theorem tie_parse_sub_element_int (c : Codec) (l : List Leaf) (n : String) :
   | none => rfl
   | some e => simp only [CR.PyS.int]; cases c.prsInt e.text <;> rfl
 
+/-! ## `StateType.get_state_type` -/
+
+def row (T : TType) : String × List String := (T.name, fields T)
+
+theorem tie_rows : Gen.Sol_StateFields = TType.all.map row := by decide
+
+theorem memberOf_name (T : TType) : memberOf Gen.Sol_StateType T.name = .ok T := by cases T <;> rfl
+
+theorem find_rows (l : List TType) (p : String × List String → Bool) :
+    (match (l.map row).find? p with
+     | some sf => memberOf Gen.Sol_StateType sf.1
+     | none => (.error .other : Res TType))
+    = (match l.find? (fun t => p (row t)) with | some t => .ok t | none => .error .other) := by
+  rw [List.find?_map]
+  have : (p ∘ row) = fun t => p (row t) := rfl
+  rw [this]
+  cases l.find? (fun t => p (row t)) with
+  | none => rfl
+  | some t => exact memberOf_name t
+
+/-- `StateType.get_state_type(state)` without a desired model: first `StateFields` member, in definition order, with EXACTLY as
+    many fields as the state has attributes, all of them among the attributes; `StateTypeException` when there is none. -/
+theorem tie_get_state_type_none (st : State) :
+    Gen.Sol_get_state_type st none = getStateType (attrsOf st) none := by
+  unfold Gen.Sol_get_state_type getStateType
+  simp only [tie_rows]
+  refine (find_rows _ _).trans ?_
+  have hb : ∀ a b : Nat, (a == b) = decide (a = b) := fun a b => by rw [Bool.eq_iff_iff]; simp
+  simp [row, elem, hb]
+  rfl
+
+theorem foldlM_filter {α : Type} (q : α → Bool) (f : List α → α → Res (List α))
+    (hf : ∀ acc x, f acc x = .ok (if q x then acc ++ [x] else acc)) (xs acc : List α) :
+    xs.foldlM f acc = .ok (acc ++ xs.filter q) := by
+  induction xs generalizing acc with
+  | nil => simp [List.foldlM, pure, Except.pure]
+  | cons x xs ih =>
+    simp only [List.foldlM, hf, bind, Except.bind, ih, List.filter_cons]
+    by_cases h : q x <;> simp [h]
+
+theorem member_row (m : VModel) : enumMember Gen.Sol_StateFields m.name = .ok (row m.toTType) := by cases m <;> rfl
+theorem member_input : enumMember Gen.Sol_StateFields "Input" = .ok (row .Input) := rfl
+theorem member_pminput : enumMember Gen.Sol_StateFields "PMInput" = .ok (row .PMInput) := rfl
+
+theorem order_rows (m : VModel) :
+    [row m.toTType, row .Input, row .PMInput] ++
+        ([] ++ Gen.Sol_StateFields.filter (fun sf => !(elem sf [row m.toTType, row .Input, row .PMInput])))
+      = ([m.toTType, TType.Input, TType.PMInput] ++
+          TType.all.filter (fun t => !([m.toTType, TType.Input, TType.PMInput].contains t))).map row := by
+  cases m <;> decide
+
+/-- `StateType.get_state_type(state, model)`: the model's own row first, then Input, PMInput, then the remaining members in
+    definition order; first row with AT MOST as many fields as the state has attributes (`>=`), all among them. -/
+theorem tie_get_state_type_some (st : State) (m : VModel) :
+    Gen.Sol_get_state_type st (some m) = getStateType (attrsOf st) (some m) := by
+  unfold Gen.Sol_get_state_type getStateType
+  simp only [member_row, member_input, member_pminput, bind, Except.bind]
+  rw [foldlM_filter (fun sf => !(elem sf [row m.toTType, row .Input, row .PMInput])) _
+        (by intro acc x; cases h : elem x [row m.toTType, row .Input, row .PMInput] <;> simp [h, pure, Except.pure, bind, Except.bind])]
+  simp only [order_rows]
+  refine (find_rows _ _).trans ?_
+  simp [row, elem]
+  rfl
+
 end CR.Sol
